@@ -2,6 +2,7 @@ package eng
 
 import (
 	"fmt"
+	"os"
 	"go/token"
 	"go/types"
 
@@ -353,6 +354,9 @@ func (x *Exec) makeSlice(f *frame, in *ssa.MakeSlice, g *Term) Value {
 		cs := PossibleConsts(t)
 		if cs == nil {
 			// bounded fallback with an unwinding-style obligation
+			if os.Getenv("GSX_DEBUG") != "" {
+				fmt.Fprintf(os.Stderr, "make fallback at %s: %s\n", x.pos(in.Pos()), t.Show(5))
+			}
 			mx := 8
 			x.oblige("unwind", x.U.And(g, x.U.Cmp(OUlt, x.U.Const(64, uint64(mx)), t)), fmt.Sprintf("make([]T, n) with n > %d", mx), in.Pos())
 			return mx
